@@ -734,7 +734,9 @@ DEFAULT_TAGSPECS = [None, None, None, None, None, ("h", "!!", "str"), ("h", "!!"
                     ("h", "!!", "python/tuple"), ("h", "!!", "python/name:a.b"),
                     ("h", "!e0!", "t9"), ("h", "!9_z!", "0"), ("v", "tag:e.org,2009:x0"),
                     # every punctuation character a tag URI may carry verbatim
-                    ("v", "tag:e.org,2000:a+b;c=d&e@f$g~h*i'j(k)l/m?n:o-p_q.r"), ("h", "!", "a+b;c=d&e@f$g~h*i'j(k)l/m?n:o-p_q.r"), ("h", "!e!", "Az09+~*")]
+                    ("v", "tag:e.org,2000:a+b;c=d&e@f$g~h*i'j(k)l/m?n:o-p_q.r"), ("h", "!", "a+b;c=d&e@f$g~h*i'j(k)l/m?n:o-p_q.r"), ("h", "!e!", "Az09+~*"),
+                    # the ends of every character range a tag may use, and escapes written with lower-case and mixed-case hex digits
+                    ("h", "!", "AZaz09"), ("v", "tag:e.org,2000:AZaz09"), ("h", "!e!", "x%c3%a9"), ("h", "!", "q%e2%82%ac"), ("v", "tag:e.org,2000:%c3%A9%5b")]
 
 
 def nodes(max_leaves=10, tagspecs=None, texts=None, allow_nonspecific=False, styles=None):
